@@ -26,15 +26,16 @@ PROP = {
 }
 
 TEXT = {
-    "text": "Correspondence and oracle level (the Lean theorem modules for C10 are added by the render-model owner): every case "
-            "is a `render` case line answered by the Lean model and by the real engine; on the real engine's output an "
-            "independent reference (harness/ref_prog.go) checks that exactly the marker of the first truthy branch appears "
-            "(nil and false falsy, everything else truthy), that unless negates only its own condition, that case selects the "
-            "first when clause listing a value equal to the subject, that a failing expression after the selected branch is "
-            "never evaluated and one before it fails the render, and that {% if c %}A{% else %}B{% endif %} and "
-            "{% unless c %}B{% else %}A{% endunless %} render alike for every generated c, erroring ones included.",
-    "design_ref": "DESIGN.md 6 C10",
-    "note": NOTE + "Comparison operators inside conditions are answered `unmodelled` by the model until Compare.lean is linked; "
-                   "the oracle on the real code does not depend on the model.",
-    "technique": "model/implementation correspondence + independent reference oracle + metamorphic (if/unless duality) oracle",
+    "text": ('Theorems for every condition, body and state: a value is truthy iff it is neither nil nor false (test_truthy_iff); '
+              'a conditional renders exactly the body of the first branch whose test is truthy (if_first_truthy), independent of '
+              'later branches which are not evaluated (if_lazy), nothing when none is (if_none), and fails when the first '
+              'non-falsy test fails (if_cond_err); unless is the dual of if for every condition, erroring ones included '
+              '(unless_dual); case renders the first when-clause listing a value equal to the subject, else the else clause, else '
+              'nothing (case_first_equal, case_else, case_none). Tie: the `cond` stream answers every case by the model and the '
+              'real engine, and an independent reference (harness/ref_prog.go) checks the selected marker, laziness and the '
+              'if/unless duality on the real output.'),
+    "design_ref": 'DESIGN.md 6 C10',
+    "note": NOTE + (""),
+    "technique": ('Lean 4 proof (induction over the branch list of the render model) + model/implementation correspondence + '
+              'independent reference and metamorphic oracle'),
 }
